@@ -12,7 +12,8 @@ EXPLANATION = (
     "update_ttl subtracts elapsed/1000 only when now > created and cannot underflow given the half-life filter; "
     "(d) the send loop over my_intfs does not depend on the known-answer list.  Decides that the code computes the "
     "quoted formulas, not wire behaviour at the boundary values."
-    " (e) A suppressed PTR takes its SRV/TXT/address additionals with it.")
+    " (e) A suppressed PTR takes its SRV/TXT/address additionals with it."
+    " (f) Everything reachable from handle_query queues answers only through DnsOutgoing::add_answer. (g) A matched cached record always gets reset_ttl(incoming), also for a goodbye.")
 UNDECIDED = ["behaviour at the boundary values on the wire (that is what F12 pins to the formula, no more)",
              "responder handling of multi-packet known-answer lists (TC bit)"]
 
@@ -20,11 +21,11 @@ RDATA_FIELDS = {"DnsAddress": {"address", "interface_id"}, "DnsPointer": {"alias
                 "DnsTxt": {"text"}, "DnsHostInfo": {"cpu", "os"}, "DnsNSec": {"next_domain", "type_bitmap"}}
 
 
-def clause_a(ctx, P):
+def clause_a(ctx, P, pre="C10a"):
     f = P.one("DnsRecordExt::suppressed_by_answer")
     tr = tracer(P, f)
     m = calls_to(f, "DnsRecordExt::matches")
-    ctx.require(len(m) == 1, "C10a.anchor", f.name, f.loc(), "one matches() call")
+    ctx.require(len(m) == 1, pre + ".anchor", f.name, f.loc(), "one matches() call")
     cmpx = []
     for b, i, s in f.assigns():
         if s["r"]["k"] == "binop" and s["r"]["op"] in ("Gt", "Ge", "Lt", "Le"):
@@ -39,7 +40,7 @@ def clause_a(ctx, P):
         okl = any(x[0] == "field" and x[2] == "ttl" for x in walk(l)) and has_call(l, "DnsRecordExt::get_record") and any(y == ("param", 2) for y in walk(l))
         okr = r[0] == "binop" and r[1] == "Div" and fold(r[3]) == 2 and any(x[0] == "field" and x[2] == "ttl" for x in walk(r[2])) and any(y == ("param", 1) for y in walk(r[2]))
         ok = e[1] == "Gt" and okl and okr
-    ctx.ob("C10a.F12.half-ttl-formula", f.name, ok, f.loc(), "suppressed_by_answer compares other.ttl > self.ttl / 2 (strict, integer half): " + detail)
+    ctx.ob(pre + ".F12.half-ttl-formula", f.name, ok, f.loc(), "suppressed_by_answer compares other.ttl > self.ttl / 2 (strict, integer half): " + detail)
     # conjunction with matches(): the comparison is evaluated only when matches() is true, result true only if both
     if m:
         e_m = guard_edges(P, f, lambda atom, outcome, bb: atom[0] == "call" and atom[3] == (f.name, m[0][0]) and outcome is True)
@@ -49,9 +50,9 @@ def clause_a(ctx, P):
         for r in rets:
             alts |= strip(r)
         okr = all((a[0] == "const" and a[1] in (0, False)) or (a[0] == "binop" and a[1] == "Gt") for a in alts)
-        ctx.ob("C10a.conjunction", f.name, okc and okr, f.loc(), "result = matches(other) && (ttl comparison): false constant or the comparison itself")
+        ctx.ob(pre + ".conjunction", f.name, okc and okr, f.loc(), "result = matches(other) && (ttl comparison): false constant or the comparison itself")
         a1 = tr.operand(m[0][1]["args"][1], endpos(f, m[0][0]))
-        ctx.ob("C10a.matches-other", f.name, strip(a1) == {("param", 2)}, f.loc(), "matches() is applied to the listed answer")
+        ctx.ob(pre + ".matches-other", f.name, strip(a1) == {("param", 2)}, f.loc(), "matches() is applied to the listed answer")
     # matches impls: field coverage
     for ty, flds in RDATA_FIELDS.items():
         g = P.one("<dns_parser::%s as dns_parser::DnsRecordExt>::matches" % ty)
@@ -76,13 +77,13 @@ def clause_a(ctx, P):
                         seen.add(x[2])
         adt_fields = set(P.adt_fields("dns_parser::" + ty)) - {"record"}
         ok = entry and adt_fields <= seen
-        ctx.ob("C10a.matches-field-coverage", g.name, ok, g.loc(), "matches() compares the entry and every field of %s: %s (struct has %s)" % (ty, sorted(seen), sorted(adt_fields)))
+        ctx.ob(pre + ".matches-field-coverage", g.name, ok, g.loc(), "matches() compares the entry and every field of %s: %s (struct has %s)" % (ty, sorted(seen), sorted(adt_fields)))
         # only against the same concrete type
         ok2 = bool([b for b, t in g.calls() if "downcast_ref" in cname(t)])
-        ctx.ob("C10a.matches-same-type", g.name, ok2, g.loc(), "matches() first downcasts the other record to the same type")
+        ctx.ob(pre + ".matches-same-type", g.name, ok2, g.loc(), "matches() first downcasts the other record to the same type")
     # DnsEntry equality covers name, type, class, cache_flush (derived PartialEq) - struct fields
     ef = P.adt_fields("dns_parser::DnsEntry")
-    ctx.ob("C10a.entry-fields", "dns_parser::DnsEntry", set(ef) == {"name", "ty", "class", "cache_flush"}, "", "DnsEntry (derived PartialEq) = %s" % ef)
+    ctx.ob(pre + ".entry-fields", "dns_parser::DnsEntry", set(ef) == {"name", "ty", "class", "cache_flush"}, "", "DnsEntry (derived PartialEq) = %s" % ef)
     sb = P.one("DnsRecordExt::suppressed_by")
     str_ = tracer(P, sb)
     sa = calls_to(sb, "DnsRecordExt::suppressed_by_answer")
@@ -93,7 +94,7 @@ def clause_a(ctx, P):
         e_t = guard_edges(P, sb, lambda atom, outcome, bb: atom[0] == "call" and atom[3] == (sb.name, sa[0][0]) and outcome is True)
         trues = [b for b, i, s in sb.assigns() if not s["p"]["proj"] and s["p"]["l"] == 0 and s["r"]["k"] == "use" and s["r"]["a"].get("val") in (1, True)]
         ok = ok and bool(trues) and all(must_pass_edges(sb, b, e_t) for b in trues)
-    ctx.ob("C10a.existential-over-answers", sb.name, ok, sb.loc(), "suppressed_by is true iff some record of msg.answers suppresses (answer section only)")
+    ctx.ob(pre + ".existential-over-answers", sb.name, ok, sb.loc(), "suppressed_by is true iff some record of msg.answers suppresses (answer section only)")
 
 
 def clause_b(ctx, P):
@@ -229,6 +230,9 @@ def clause_e(ctx, P):
 
 
 def run(ctx, P):
+    from . import r2
+    r2.known_answers_always_consulted(ctx, P, "C10f")
+    r2.cache_update_rules(ctx, P, "C10g", want=("reset",))
     clause_e(ctx, P)
     clause_a(ctx, P)
     clause_b(ctx, P)
